@@ -14,12 +14,14 @@ SEM_NOTE = ("TLC; TLA+ semantic core (Values/PropHT/Sigma0/MiniGringo); bounded 
 # id -> (category, text, design_ref, level_note, technique, engine)
 CLAIMED = {
     "C01": (TV, "every tau* formula anthem emits for a generated rule is checked HT-equivalent to the TLA+ reference semantics of that "
-                "rule, for every HT interpretation over a finite base, by TLC", "7.1 C01", SEM_NOTE,
+                "rule, for every HT interpretation over a finite base, by TLC; texts printed by the reference grammar (Syntax.tla) with minimal "
+                "parentheses must parse to the tree they were printed from", "7.1 C01", SEM_NOTE,
             "TLA+ reference semantics + TLC trace validation of anthem's tau* output (translation validation)", "tla-sem"),
     "C02": (TV, "for every generated external-equivalence task anthem accepts and every emitted problem family, TLC compares - for every "
                 "classical interpretation of all predicates (both private copies) over the base and every placeholder value - 'some "
                 "forward/backward problem is refuted' with the reference oracle (stable models by brute force from the rule semantics, "
-                "private parts by support, user-guide and specification formulas evaluated on the input trees)", "7.1 C02",
+                "private parts by support, user-guide and specification formulas evaluated on the input trees); formula texts printed by the "
+                "reference grammar (Syntax.tla) must parse to the tree they were printed from", "7.1 C02",
             SEM_NOTE + "; tasks without proof outline and without identifier clashes; side vocabulary = predicates occurring on that side",
             "TLA+ reference semantics + TLC trace validation of the emitted problem families", "tla-sem"),
     "C03": (TV, "for every generated pair of programs and emitted family, TLC compares - for every pair of extents (H,T) of the h/t copies, "
